@@ -20,6 +20,7 @@ class Run:
         self.prog = prog
         self.it = it = Interp(prog, M, INVARIANTS, trace=__import__("os").environ.get("E2_TRACE"))
         it.bool_vars = bool_vars
+        it.map_key_field = "transaction_id"      # invariant of outstanding_requests (established by send, kept by handle_stun)
         it.track_content = track_content
         if max_parts:
             it.max_parts = max_parts
